@@ -365,10 +365,13 @@ class Testbed(object):
         for _ in range(n):
             self.asyncore.poll(0.0, self.asyncore.socket_map)
 
-    def exchange(self, which, raw, max_polls=400, want_more=False):
+    def exchange(self, which, raw, max_polls=400, want_more=False, cuts=()):
         """Send raw bytes on a fresh connection to server #which; poll the server
         until the response is complete (Content-Length satisfied, chunked stream
-        started, or the connection closed).  Returns (bytes received, closed)."""
+        started, or the connection closed).  Returns (bytes received, closed).
+        `cuts`: offsets at which the request is cut into separately sent segments
+        (the server is polled, i.e. reads, between two segments)."""
+        bounds = sorted(set(x for x in cuts if 0 < x < len(raw))) + [len(raw)]
         fam, addr = self.addrs[which]
         c = socket.socket(fam, socket.SOCK_STREAM)
         c.settimeout(2.0)
@@ -382,7 +385,10 @@ class Testbed(object):
         for it in range(max_polls):
             if sent < len(raw):
                 try:
-                    sent += c.send(raw[sent:sent + 65536])
+                    nxt = [b for b in bounds if b > sent][0]
+                    sent += c.send(raw[sent:min(nxt, sent + 65536)])
+                    if sent < len(raw):
+                        self.poll(2)          # the channel reads this segment before the next one is sent
                 except (BlockingIOError, InterruptedError):
                     pass
                 except (BrokenPipeError, ConnectionResetError):
